@@ -28,6 +28,7 @@ From V Require Import Gen.RtOutc Spec.RoundTrip.
 From V Require Import Model.RefDef Model.Blocks.
 From V Require Import Model.Inlines.
 From V Require Import Model.Parse.
+From V Require Import Spec.ParseValidSpec.
 Extraction Language OCaml.
 Set Extraction KeepSingleton.
 
@@ -316,4 +317,5 @@ Extraction "model.ml"
   Parse.inline_phase
   Parse.footnote_phase
   Parse.post_phase
+  ParseValidSpec.parse_valid_report
 .
